@@ -236,12 +236,39 @@ func (n *chainnode) Mean(field string) *InfluxQLNode {
 	return i
 }
 
+// floatAggregateSlice wraps a reduce function of an aggregate (not a selector): the
+// result is stamped with the batch time. The InfluxDB median and mode functions return
+// the input point itself, with its own time, when there is only one point; without this
+// usePointTimes would pick that time up.
+func floatAggregateSlice(fn query.FloatReduceSliceFunc) query.FloatReduceSliceFunc {
+	return func(a []query.FloatPoint) []query.FloatPoint {
+		in := fn(a)
+		out := make([]query.FloatPoint, len(in))
+		for i := range in {
+			out[i] = query.FloatPoint{Time: query.ZeroTime, Value: in[i].Value}
+		}
+		return out
+	}
+}
+
+// integerAggregateSlice is floatAggregateSlice for integer results.
+func integerAggregateSlice(fn query.IntegerReduceSliceFunc) query.IntegerReduceSliceFunc {
+	return func(a []query.IntegerPoint) []query.IntegerPoint {
+		in := fn(a)
+		out := make([]query.IntegerPoint, len(in))
+		for i := range in {
+			out[i] = query.IntegerPoint{Time: query.ZeroTime, Value: in[i].Value}
+		}
+		return out
+	}
+}
+
 // Compute the median of the data. Note, this method is not a selector,
 // if you want the median point use `.percentile(field, 50.0)`.
 func (n *chainnode) Median(field string) *InfluxQLNode {
 	i := newInfluxQLNode("median", field, n.Provides(), StreamEdge, ReduceCreater{
 		CreateFloatReducer: func() (query.FloatPointAggregator, query.FloatPointEmitter) {
-			fn := query.NewFloatSliceFuncReducer(query.FloatMedianReduceSlice)
+			fn := query.NewFloatSliceFuncReducer(floatAggregateSlice(query.FloatMedianReduceSlice))
 			return fn, fn
 		},
 		CreateIntegerFloatReducer: func() (query.IntegerPointAggregator, query.FloatPointEmitter) {
@@ -257,11 +284,11 @@ func (n *chainnode) Median(field string) *InfluxQLNode {
 func (n *chainnode) Mode(field string) *InfluxQLNode {
 	i := newInfluxQLNode("mode", field, n.Provides(), StreamEdge, ReduceCreater{
 		CreateFloatReducer: func() (query.FloatPointAggregator, query.FloatPointEmitter) {
-			fn := query.NewFloatSliceFuncReducer(query.FloatModeReduceSlice)
+			fn := query.NewFloatSliceFuncReducer(floatAggregateSlice(query.FloatModeReduceSlice))
 			return fn, fn
 		},
 		CreateIntegerReducer: func() (query.IntegerPointAggregator, query.IntegerPointEmitter) {
-			fn := query.NewIntegerSliceFuncReducer(query.IntegerModeReduceSlice)
+			fn := query.NewIntegerSliceFuncReducer(integerAggregateSlice(query.IntegerModeReduceSlice))
 			return fn, fn
 		},
 	})
